@@ -46,6 +46,7 @@ import (
 	v1 "sigs.k8s.io/karpenter/pkg/apis/v1"
 	fakecp "sigs.k8s.io/karpenter/pkg/cloudprovider/fake"
 	"sigs.k8s.io/karpenter/pkg/controllers/nodeclaim/lifecycle"
+	"sigs.k8s.io/karpenter/pkg/controllers/nodepool/readiness"
 	"sigs.k8s.io/karpenter/pkg/controllers/nodepool/registrationhealth"
 	"sigs.k8s.io/karpenter/pkg/operator/options"
 	"sigs.k8s.io/karpenter/pkg/state/nodepoolhealth"
@@ -78,6 +79,14 @@ func init() {
 //	       (other UID) registers / times out: not an attempt of either pool
 //	Pa Pb  the NodePool spec is edited (generation bump), the registrationhealth controller reconciles it (reset)
 //	C      the NodeClass is edited (generation bump); both NodePools are reconciled, as the NodeClass watch does (reset)
+//	D      the NodeClass is deleted (both NodePools are reconciled while it is gone: nothing to do) and re-created under
+//	       the same name - a fresh object whose metadata.generation is 1 again, i.e. LOWER than the generation the
+//	       NodePools observed if the old object had ever been edited; both NodePools are reconciled (reset iff the
+//	       generation differs from the observed one)
+//	Y0..Y3 the NodeClass's readiness flips and nodepool.readiness - another writer of the NodePool's status - reconciles
+//	       both NodePools, working from the copy of each NodePool as it was 0..3 events ago (informer lag: the copy
+//	       may predate a NodeRegistrationHealthy transition); after a 409 it is handed the current object, as
+//	       controller-runtime does.  Not this condition's business: nothing may change.
 //	R      karpenter restarts: all in-memory state is lost, both NodePools are reconciled (re-hydration)
 //	N      both NodePools are reconciled although nothing changed (resync)
 //
@@ -95,7 +104,7 @@ var poolEvents = func() []string {
 	for _, k := range []string{"S", "T", "E", "W", "F", "G", "L", "Z"} {
 		out = append(out, k+"a", k+"b")
 	}
-	return append(out, "Xs", "Xf", "Pa", "Pb", "C", "R", "N")
+	return append(out, "Xs", "Xf", "Pa", "Pb", "C", "D", "Y0", "Y1", "Y2", "Y3", "R", "N")
 }()
 
 const (
@@ -122,12 +131,12 @@ func splitEvent(s string) (base string, fault int, ok bool) {
 		return "", 0, false
 	}
 	switch base {
-	case "R", "N":
-		// these reconciles never write the NodePool in the scripts' world: no modifier
+	case "R", "N", "Y0", "Y1", "Y2", "Y3":
+		// these reconciles never write the NodePool in the scripts' world (Y: no injected fault, the conflicts are real): no modifier
 		if fault != faultNone {
 			return "", 0, false
 		}
-	case "Pa", "Pb", "C":
+	case "Pa", "Pb", "C", "D":
 		// the registrationhealth controller is handed the NodePool; it does not Get it
 		if fault == faultGet500 {
 			return "", 0, false
@@ -210,9 +219,17 @@ type poolEnv struct {
 	st    *nodepoolhealth.State
 	life  *lifecycle.Controller
 	rh    *registrationhealth.Controller
-	n     int
-	full  bool
-	anoms []string
+	ready *readiness.Controller
+	// snaps[k] = both NodePools as stored at the start of step k (what a lagging informer cache may still hold later);
+	// taken only at the steps a later Y event of the script reaches back to (snapNeed)
+	snaps    map[int]map[string]*v1.NodePool
+	snapNeed map[int]bool
+	// number of NodeClass objects created so far under the name "default" / next readiness to report
+	classes  int
+	notReady bool
+	n        int
+	full     bool
+	anoms    []string
 }
 
 var poolNames = map[string]string{"a": "pool-a", "b": "pool-b"}
@@ -278,6 +295,7 @@ func (e *poolEnv) boot() {
 	e.st = nodepoolhealth.NewState()
 	e.life = lifecycle.NewController(e.clk, e.api, e.cp, test.NewEventRecorder(), e.st, nil)
 	e.rh = registrationhealth.NewController(e.clk, e.api, e.cp, e.st)
+	e.ready = readiness.NewController(e.clk, e.api, e.cp)
 }
 
 // reconcilePools hands the stored NodePools to the registrationhealth controller, as controller-runtime would: again
@@ -523,6 +541,104 @@ func (e *poolEnv) bumpNodeClass() error {
 	return e.c.Update(e.ctx, nc)
 }
 
+// replaceNodeClass deletes the NodeClass, lets the registrationhealth controller see both NodePools while it is gone,
+// and re-creates it under the same name: a fresh object (new UID, generation 1)
+func (e *poolEnv) replaceNodeClass() error {
+	nc := &v1alpha1.TestNodeClass{}
+	if err := e.c.Get(e.ctx, client.ObjectKey{Name: "default"}, nc); err != nil {
+		return err
+	}
+	if err := e.c.Delete(e.ctx, nc); err != nil {
+		return err
+	}
+	if err := e.reconcilePools(faultNone, "a", "b"); err != nil {
+		return fmt.Errorf("while the NodeClass is gone: %w", err)
+	}
+	e.classes++
+	fresh := &v1alpha1.TestNodeClass{ObjectMeta: metav1.ObjectMeta{Name: "default", UID: types.UID(fmt.Sprintf("uid-nodeclass-%d", e.classes)), Generation: 1, CreationTimestamp: metav1.NewTime(e.clk.Now())}}
+	return e.c.Create(e.ctx, fresh)
+}
+
+// snapshot remembers both NodePools as they are stored now
+func (e *poolEnv) snapshot(step int) error {
+	if !e.snapNeed[step] {
+		return nil
+	}
+	m := map[string]*v1.NodePool{}
+	for _, p := range []string{"a", "b"} {
+		np := &v1.NodePool{}
+		if err := e.c.Get(e.ctx, client.ObjectKey{Name: poolNames[p]}, np); err != nil {
+			return fmt.Errorf("harness: get nodepool: %w", err)
+		}
+		m[p] = np
+	}
+	if e.snaps == nil {
+		e.snaps = map[int]map[string]*v1.NodePool{}
+	}
+	e.snaps[step] = m
+	return nil
+}
+
+// readinessWrites: the NodeClass's Ready condition flips, and nodepool.readiness (woken up by the NodeClass watch)
+// reconciles both NodePools from the copy its cache held `lag` events ago; when it asks for a requeue (409 on its
+// optimistic-lock patch) or fails it is handed the current object.  It must have written NodeClassReady in the end.
+func (e *poolEnv) readinessWrites(step int, lag int) error {
+	nc := &v1alpha1.TestNodeClass{}
+	if err := e.c.Get(e.ctx, client.ObjectKey{Name: "default"}, nc); err != nil {
+		return err
+	}
+	e.notReady = !e.notReady
+	if e.notReady {
+		nc.StatusConditions(status.WithClock(e.clk)).SetFalse(status.ConditionReady, "Broken", "the NodeClass cannot be resolved")
+	} else {
+		nc.StatusConditions(status.WithClock(e.clk)).SetTrue(status.ConditionReady)
+	}
+	if err := e.c.Update(e.ctx, nc); err != nil {
+		return fmt.Errorf("harness: update nodeclass status: %w", err)
+	}
+	idx := max(step-lag, 0)
+	if e.snaps[idx] == nil {
+		return fmt.Errorf("harness: no snapshot of step %d", idx)
+	}
+	for _, p := range []string{"a", "b"} {
+		// first the lagging copy; then - the cache catches up, which is an event on the NodePool - the current object,
+		// again after every requeue / error
+		np := e.snaps[idx][p].DeepCopy()
+		for try := 0; ; try++ {
+			res, err := e.ready.Reconcile(e.ctx, np)
+			//nolint:staticcheck
+			if try > 0 && err == nil && !res.Requeue {
+				break
+			}
+			if try == 4 {
+				return fmt.Errorf("nodepool.readiness: still asking for a retry after 5 passes (%v)", err)
+			}
+			np = &v1.NodePool{}
+			if err := e.c.Get(e.ctx, client.ObjectKey{Name: poolNames[p]}, np); err != nil {
+				return fmt.Errorf("harness: get nodepool: %w", err)
+			}
+		}
+		cur := &v1.NodePool{}
+		if err := e.c.Get(e.ctx, client.ObjectKey{Name: poolNames[p]}, cur); err != nil {
+			return fmt.Errorf("harness: get nodepool: %w", err)
+		}
+		want := metav1.ConditionTrue
+		if e.notReady {
+			want = metav1.ConditionFalse
+		}
+		wrote := false
+		for _, c := range cur.Status.Conditions {
+			if c.Type == v1.ConditionTypeNodeClassReady && c.Status == want {
+				wrote = true
+			}
+		}
+		if !wrote {
+			e.anoms = append(e.anoms, fmt.Sprintf("%d:readiness-not-written", step))
+		}
+	}
+	return nil
+}
+
 func (e *poolEnv) observe(pool string) ([]int, error) {
 	np := &v1.NodePool{}
 	if err := e.c.Get(e.ctx, client.ObjectKey{Name: poolNames[pool]}, np); err != nil {
@@ -551,6 +667,9 @@ func (e *poolEnv) step(i int, ev string) error {
 		return fmt.Errorf("bad event %q", ev)
 	}
 	e.clk.Step(7 * time.Second)
+	if err := e.snapshot(i); err != nil {
+		return err
+	}
 	switch base {
 	case "Sa", "Sb", "Ta", "Tb", "Ea", "Eb", "Wa", "Wb":
 		p := base[1:]
@@ -582,6 +701,13 @@ func (e *poolEnv) step(i int, ev string) error {
 			return err
 		}
 		return e.reconcilePools(fault, "a", "b")
+	case "D":
+		if err := e.replaceNodeClass(); err != nil {
+			return err
+		}
+		return e.reconcilePools(fault, "a", "b")
+	case "Y0", "Y1", "Y2", "Y3":
+		return e.readinessWrites(i, int(base[1]-'0'))
 	case "R":
 		e.boot()
 		return e.reconcilePools(faultNone, "a", "b")
@@ -604,6 +730,12 @@ func implPool(raw json.RawMessage) (any, error) {
 	e, err := newPoolEnv(in.Full)
 	if err != nil {
 		return nil, err
+	}
+	e.snapNeed = map[int]bool{}
+	for i, ev := range in.Steps {
+		if len(ev) == 2 && ev[0] == 'Y' {
+			e.snapNeed[max(i-int(ev[1]-'0'), 0)] = true
+		}
 	}
 	out := PoolOut{A: [][]int{}, B: [][]int{}, Anomalies: []string{}}
 	obs := func() error {
@@ -658,6 +790,8 @@ func genPool(r *rand.Rand, t core.Tier) any {
 	// fault is the known finding C20-success-lost-on-nodepool-api-failure)
 	pFault := []float64{0.0, 0.0, 0.1, 0.25, 0.5}[r.IntN(5)]
 	faultOnSuccess := r.IntN(3) == 0
+	// per-case rate of nodepool.readiness writing the NodePool's status from a copy that is 0..3 events old
+	pReady := []float64{0.0, 0.0, 0.1, 0.25}[r.IntN(4)]
 	steps := make([]string, 0, n)
 	mark := func(ev string, marks []string) string {
 		if r.Float64() < pFault {
@@ -666,10 +800,14 @@ func genPool(r *rand.Rand, t core.Tier) any {
 		return ev
 	}
 	for i := 0; i < n; i++ {
+		if r.Float64() < pReady {
+			steps = append(steps, []string{"Y0", "Y1", "Y1", "Y2", "Y2", "Y3"}[r.IntN(6)])
+			continue
+		}
 		if r.Float64() < pRare {
-			ev := []string{"C", "C", "C", "Pa", "Pa", "Pb", "R", "R", "R", "N", "N", "Xs", "Xf"}[r.IntN(13)]
+			ev := []string{"C", "C", "C", "D", "D", "Pa", "Pa", "Pb", "R", "R", "R", "N", "N", "Xs", "Xf"}[r.IntN(15)]
 			switch ev {
-			case "C", "Pa", "Pb":
+			case "C", "D", "Pa", "Pb":
 				ev = mark(ev, poolFaultMarks[:2])
 			case "Xs", "Xf":
 				ev = mark(ev, poolFaultMarks)
@@ -716,7 +854,9 @@ func genPool(r *rand.Rand, t core.Tier) any {
 // modifier, and every "F F x S S S" / "F S x S S S" with x any pool-a outcome with any modifier (does x occupy exactly
 // one slot of the window?); thorough: every script of length 6 over {Sa, Fa, C, R}, of length 4 over
 // {Sa, Fa, Pa, N, C, R}, of length 6 over {Sa, Fa, Fa!}, of length 5 over {Sa, Fa, Ta, Ea}, the pairs as in quick and
-// every script of length 3 over {Sa, Sa!, Sa~, Fa, Fa!, Fa~, Ta, Ta!, Ea, La!, Za!, Pa!, C!, R}.  All prefixes are checked too, since every step is observed.  (The fake client
+// every script of length 3 over {Sa, Sa!, Sa~, Fa, Fa!, Fa~, Ta, Ta!, Ea, La!, Za!, Pa!, C!, R}; in both tiers scripts
+// with the NodeClass replaced (D) after 0..2 edits in every condition, and nodepool.readiness writing from a lagging
+// copy (Y0..Y3) around a transition (see below).  All prefixes are checked too, since every step is observed.  (The fake client
 // serialises the API writes of all workers on one global lock, which bounds what the quick tier can afford.)
 func enumPool(t core.Tier) []any {
 	var out []any
@@ -746,13 +886,16 @@ func enumPool(t core.Tier) []any {
 		}
 	}
 	all = append(all, outcomes...)
-	all = append(all, "Pa", "Pa!", "Pa?", "C", "C!", "C?", "R", "N", "Xs", "Xs~", "Xf", "Xf!", "Xf~")
+	all = append(all, "Pa", "Pa!", "Pa?", "C", "C!", "C?", "D", "D!", "D?", "Y0", "Y1", "Y2", "R", "N", "Xs", "Xs~", "Xf", "Xf!", "Xf~")
 	if t == core.Thorough {
 		rec([]string{"Sa", "Fa", "C", "R"}, nil, 6)
 		rec([]string{"Sa", "Fa", "Pa", "N", "C", "R"}, nil, 4)
 		rec([]string{"Sa", "Fa", "Fa!"}, nil, 6)
 		rec([]string{"Sa", "Fa", "Ta", "Ea"}, nil, 5)
 		rec(all, nil, 2)
+		rec([]string{"Sa", "Fa", "C", "D"}, nil, 5)
+		rec([]string{"Sa", "Fa", "Y1", "Y2"}, nil, 5)
+		rec([]string{"Sa", "Fa", "Y0", "Y3", "C", "D!", "R"}, nil, 4)
 		rec([]string{"Sa", "Sa!", "Sa~", "Fa", "Fa!", "Fa~", "Ta", "Ta!", "Ea", "La!", "Za!", "Pa!", "C!", "R"}, nil, 3)
 	} else {
 		rec([]string{"Sa", "Fa"}, nil, 6)
@@ -762,6 +905,24 @@ func enumPool(t core.Tier) []any {
 		rec([]string{"Sa", "Fa", "Fa!"}, nil, 5)
 		rec([]string{"Sa", "Fa", "Ta", "Ea"}, nil, 4)
 		rec(all, nil, 2)
+		rec([]string{"Sa", "Fa", "C", "D"}, nil, 4)
+		rec([]string{"Sa", "Fa", "Y1", "Y2"}, nil, 4)
+	}
+	// the NodeClass replaced after 0..2 edits, the pool being Unknown / True / False (does the window start afresh?), and
+	// nodepool.readiness writing from a copy that predates the transition to False / back to True
+	for _, pre := range [][]string{{}, {"C"}, {"C", "C"}} {
+		for _, mid := range [][]string{{}, {"Sa"}, {"Fa", "Fa"}, {"Sa", "Fa", "Fa"}} {
+			for _, d := range []string{"D", "D!", "D?"} {
+				sc := append(append(append([]string{}, pre...), mid...), d)
+				add(append(append([]string{}, sc...), "Fa", "Sa", "Sa"))
+				add(append(append([]string{}, sc...), "R", "Sa", "Fa", "Fa"))
+			}
+		}
+	}
+	for _, y := range []string{"Y0", "Y1", "Y2", "Y3"} {
+		add([]string{"Sa", "Fa", "Fa", y, "Sa", "Sa", y, "Fa"})
+		add([]string{"Fa", "Fa", "Sa", "Sa", "Sa", y, "R", "Fa"})
+		add([]string{"Fa", "Fa", "C", y, "Sa", y, "Sb", "Fb", "Fb", y})
 	}
 	for _, x := range outcomes {
 		add([]string{"Fa", "Fa", x, "Sa", "Sa", "Sa"})
@@ -799,6 +960,8 @@ func poolCircumstances(steps []string) map[string]bool {
 		}
 		window = pushed(v)
 	}
+	classGen := 1
+	var conds []int // pool a's condition at the start of every step
 	for _, s := range steps {
 		base, fault, ok := splitEvent(s)
 		if !ok {
@@ -806,6 +969,29 @@ func poolCircumstances(steps []string) map[string]bool {
 		}
 		if fault != faultNone {
 			seen["fault:"+s[len(s)-1:]] = true
+		}
+		conds = append(conds, cond)
+		if base == "C" {
+			classGen++
+		}
+		if base == "D" {
+			if classGen == 1 {
+				seen["nodeclass-replaced-same-generation(no reset)"] = true
+				continue
+			}
+			seen["nodeclass-replaced-lower-generation(reset)"] = true
+			if cond == 2 {
+				seen["nodeclass-replaced-lower-generation-while-False"] = true
+			}
+			classGen = 1
+		}
+		if len(base) == 2 && base[0] == 'Y' {
+			idx := max(len(conds)-1-int(base[1]-'0'), 0)
+			if conds[idx] != cond {
+				seen["readiness-writes-from-copy-predating-a-transition"] = true
+			} else {
+				seen["readiness-writes-from-copy-with-current-condition"] = true
+			}
 		}
 		switch base {
 		case "Sa", "Ta", "Ea", "Wa":
@@ -853,7 +1039,7 @@ func poolCircumstances(steps []string) map[string]bool {
 			} else if cond == 1 {
 				seen["isolated-failure-stays-True"] = true
 			}
-		case "C", "Pa":
+		case "C", "D", "Pa":
 			if fault != faultNone {
 				seen["fault-hits-reset(retried)"] = true
 			}
@@ -884,7 +1070,7 @@ func poolCircumstances(steps []string) map[string]bool {
 func poolOp() *core.Op {
 	return &core.Op{
 		Name: "c20.pool",
-		Doc:  "event scripts (registrations and registration/launch timeouts that the controller sees in time, late, at the edge of the timeout or repeatedly; one-shot API faults on the NodePool Get / status patch followed by the retry; NodePool/NodeClass edits, restarts, resyncs, foreign claims; two NodePools) through the real nodeclaim lifecycle controller and the real nodepool.registrationhealth controller on the fake client; persisted NodeRegistrationHealthy condition, tracker status and what-if verdicts after every event",
+		Doc:  "event scripts (registrations and registration/launch timeouts that the controller sees in time, late, at the edge of the timeout or repeatedly; one-shot API faults on the NodePool Get / status patch followed by the retry; NodePool/NodeClass edits, the NodeClass deleted and re-created (generation back to 1), nodepool.readiness writing NodeClassReady from a NodePool copy that is 0..3 events old, restarts, resyncs, foreign claims; two NodePools) through the real nodeclaim lifecycle controller, the real nodepool.registrationhealth controller and the real nodepool.readiness controller on the fake client; persisted NodeRegistrationHealthy condition, tracker status and what-if verdicts after every event",
 		N: func(t core.Tier) int {
 			if t == core.Thorough {
 				return 1000
@@ -894,8 +1080,8 @@ func poolOp() *core.Op {
 		Gen:            genPool,
 		Enum:           enumPool,
 		Impl:           implPool,
-		ExhaustiveNote: "quick: every event script of length 6 over {Sa,Fa}, of length 5 over {Sa,Fa,C}, {Sa,Fa,R} and {Sa,Fa,Fa!}, of length 4 over {Sa,Fa,Ta,Ea}, of length 3 over {Sa,Fa,Pa,N,C,R}, every pair of pool-a events with every fault modifier, and F F x S S S / F S x S S S for every pool-a outcome x with every modifier; thorough: length 6 over {Sa,Fa,C,R} and {Sa,Fa,Fa!}, length 5 over {Sa,Fa,Ta,Ea}, length 4 over {Sa,Fa,Pa,N,C,R}, the pairs and the x-scripts as in quick, length 3 over {Sa,Sa!,Sa~,Fa,Fa!,Fa~,Ta,Ta!,Ea,La!,Za!,Pa!,C!,R}; every prefix is observed",
-		Rule:           "random scripts (length 1..30 quick, 1..60 thorough; per-case failure rate 8%..85%, rare-event rate 0..40%, share of pool a 60..100%, odd-timing rate 0/0/10/30% (T,E,W,G,Z instead of S,F,L), fault rate 0/0/10/25/50% per event (! ? ~ uniformly; on successes too in 1/3 of the cases)) + exhaustive short scripts; non-trivial = pool a's condition leaves Unknown at least once and at least one reset/restart/resync/foreign/late/faulted event occurs, or the window wraps",
+		ExhaustiveNote: "quick: every event script of length 6 over {Sa,Fa}, of length 5 over {Sa,Fa,C}, {Sa,Fa,R} and {Sa,Fa,Fa!}, of length 4 over {Sa,Fa,Ta,Ea}, of length 3 over {Sa,Fa,Pa,N,C,R}, of length 4 over {Sa,Fa,C,D} and {Sa,Fa,Y1,Y2}, every pair of pool-a events with every fault modifier, F F x S S S / F S x S S S for every pool-a outcome x with every modifier, C^0..2 + {-, S, FF, SFF} + D/D!/D? + {F S S, R S F F}, and three scripts per lag Y0..Y3 around a transition; thorough: length 5 over {Sa,Fa,C,D} and {Sa,Fa,Y1,Y2}, length 4 over {Sa,Fa,Y0,Y3,C,D!,R}, length 6 over {Sa,Fa,C,R} and {Sa,Fa,Fa!}, length 5 over {Sa,Fa,Ta,Ea}, length 4 over {Sa,Fa,Pa,N,C,R}, the pairs and the x-scripts as in quick, length 3 over {Sa,Sa!,Sa~,Fa,Fa!,Fa~,Ta,Ta!,Ea,La!,Za!,Pa!,C!,R}; every prefix is observed",
+		Rule:           "random scripts (length 1..30 quick, 1..60 thorough; per-case failure rate 8%..85%, rare-event rate 0..40%, share of pool a 60..100%, odd-timing rate 0/0/10/30% (T,E,W,G,Z instead of S,F,L), fault rate 0/0/10/25/50% per event (! ? ~ uniformly; on successes too in 1/3 of the cases), readiness-writer rate 0/0/10/25% per event (Y0,Y1,Y1,Y2,Y2,Y3 uniformly), D = 2/15 of the rare events (C = 3/15)) + exhaustive short scripts; non-trivial = pool a's condition leaves Unknown at least once and at least one reset/replacement/readiness-write/restart/resync/foreign/late/faulted event occurs, or the window wraps",
 		Nontrivial: func(raw json.RawMessage, _ any) bool {
 			var in PoolIn
 			json.Unmarshal(raw, &in)
@@ -904,7 +1090,7 @@ func poolOp() *core.Op {
 			for _, s := range in.Steps {
 				base, fault, _ := splitEvent(s)
 				switch base {
-				case "C", "Pa", "R", "N", "Xs", "Xf", "Ta", "Ea", "Wa", "Ga", "Za":
+				case "C", "D", "Y0", "Y1", "Y2", "Y3", "Pa", "R", "N", "Xs", "Xf", "Ta", "Ea", "Wa", "Ga", "Za":
 					rare = true
 				}
 				if fault != faultNone {
